@@ -90,7 +90,13 @@ Fixpoint ns_count (t : ty) : nat :=           (* settings-bearing fields in the 
        match l with
        | [] => O
        | (_, ctag, _, ft) :: r =>
-         Nat.add (if tag_squash ctag then match ft with TStruct _ => ns_count ft | _ => 1%nat end else 1%nat) (go r)
+         Nat.add (if tag_squash ctag
+                  then match ft with
+                       | TStruct _ => ns_count ft
+                       | TPtr e => match e with TStruct _ => ns_count e | _ => 1%nat end   (* an inline pointer to a struct *)
+                       | _ => 1%nat
+                       end
+                  else 1%nat) (go r)
        end) fs
   | _ => 1%nat
   end.
@@ -103,6 +109,10 @@ Fixpoint ns_has_inline_map (t : ty) : bool :=
        | (_, ctag, _, ft) :: r =>
          (tag_squash ctag && match ft with
                              | TStruct _ => ns_has_inline_map ft
+                             | TPtr e => match e with
+                                         | TStruct _ => ns_has_inline_map e
+                                         | _ => match base_ty ft with TMap _ => true | _ => false end
+                                         end
                              | _ => match base_ty ft with TMap _ => true | _ => false end
                              end) || go r
        end) fs
